@@ -125,6 +125,15 @@ def make_volume(size, dtype, channels, rng, kind):
         hi = {"uint8": 256, "uint16": 60000, "uint32": 1 << 30, "uint64": 1 << 30,
               "float32": 1 << 16}[dt.name]
         vol = rng.integers(0, hi, size=(channels, size[2], size[1], size[0]))
+        if rng.random() < 0.35:
+            # empty (all-zero) margins at the far end of one or more axes: whole border
+            # chunks of zeros are ordinary data and must be downscaled like any other
+            for ax, n_ax in ((3, size[0]), (2, size[1]), (1, size[2])):
+                if n_ax > 1 and rng.random() < 0.6:
+                    m = int(rng.integers(1, max(2, n_ax // 2 + 1)))
+                    sl = [slice(None)] * 4
+                    sl[ax] = slice(n_ax - m, None)
+                    vol[tuple(sl)] = 0
     return vol.astype(dt)
 
 
